@@ -185,6 +185,25 @@ impl Tree {
 pub type Profile = [BTreeMap<String, Vec<i64>>; 2];
 
 /// the named form handed to `from_named`
+/// the same named profile with every several-action infoset given in TWO items (its first action, later the rest, other
+/// infosets in between): the documentation puts no restriction on the order or grouping of the items
+pub fn named_split(tree: &Tree, prof: &Profile) -> [Vec<(String, Vec<(String, f64)>)>; 2] {
+    named(tree, prof).map(|side| {
+        let mut first = Vec::new();
+        let mut rest = Vec::new();
+        for (info, acts) in side {
+            if acts.len() >= 2 {
+                first.push((info.clone(), acts[..1].to_vec()));
+                rest.push((info, acts[1..].to_vec()));
+            } else {
+                first.push((info, acts));
+            }
+        }
+        first.extend(rest);
+        first
+    })
+}
+
 pub fn named(tree: &Tree, prof: &Profile) -> [Vec<(String, Vec<(String, f64)>)>; 2] {
     let mut res: [Vec<(String, Vec<(String, f64)>)>; 2] = [Vec::new(), Vec::new()];
     for pl in 0..2 {
